@@ -821,6 +821,40 @@ def destructor_filter_ready(M, m):
                 ok2, _ = di.must_reach([x for _, x in se], [t.block], [lp[0]] + list(di.return_blocks))
                 if ok1 and ok2:
                     return True
+    # ---------------------------------------------------------------- form D
+    # `for i in 0..N { if state[i].is_ready() { slots[i].assume_init_drop() } }` (also with `if !.. { continue }`)
+    for s in di.sites:
+        if s.key != DROP:
+            continue
+        a = s.arg(0)
+        if a is None or a[0] != "index" or self_path(a[1]) is None or _is_state_field(M, m, a[1]):
+            continue
+        idx = a[2]
+        r = scan.loop_item_root(idx)
+        if r is None or not r[2] or idx != ("field", ("variant", r, "Some"), 0):
+            continue
+        it = r[2][0]
+        while it[0] == "call" and it[1][1] in ("into_iter", "by_ref") and it[2]:
+            it = it[2][0]
+        if not (it[0] == "agg" and it[1] == ("Range", "Range") and it[2][0] == ("const", 0)):
+            continue
+        hi = it[2][1]
+        if not (hi == ("sym", "N") or (hi[0] == "call" and hi[1][1] == "len" and hi[2] and self_path(hi[2][0]) is not None)):
+            continue
+        nxt = di.by_block.get(r[3])
+        lp = body.innermost_loop(s.block)
+        if nxt is None or lp is None or not always_reached(di, [nxt.block]):
+            continue
+        for t, tidx, base in scan.state_tests(di, "is_ready"):
+            if tidx == idx and _is_state_field(M, m, base):
+                te = di.outcome_edges(t, True)
+                se = di.outcome_edges(nxt, "Some")
+                if not te or not se or not di.guarded_by(s.block, te):
+                    continue
+                ok1, _ = di.must_reach([x for _, x in te], [s.block], [lp[0]] + list(di.return_blocks))
+                ok2, _ = di.must_reach([x for _, x in se], [t.block], [lp[0]] + list(di.return_blocks))
+                if ok1 and ok2:
+                    return True
     return False
 
 
